@@ -126,6 +126,19 @@ def run(tier, rep, ev):
         add(sizes=sizes, mode="seq", sink="factory", seed=1)
         for rep_i in range(3 if tier == "quick" else 25):
             add(sizes=sizes, mode="process", sink="path", seed=rep_i)
+        # several reads of packed data per folder (small I/O block) and a turn at EVERY write: the workers' reads interleave
+        for k, s in enumerate(R.sample(sch, min(len(sch), 12 if tier == "quick" else 200))):
+            fine = [f for f in s for _ in range(3)]
+            add(sizes=sizes, mode="thread", schedule=fine if k % 2 else s, sink="factory", seed=k % 5, coder=["copy", "lzma2", "bzip2"][k % 3],
+                block=[64, 100, 257][k % 3], limit=[64, 300, 1000][(k // 3) % 3], fine=True)
+        # a selection confined to ONE folder (the others are skipped), that folder damaged: the error must still reach the caller
+        for f in range(1, len(sizes) + 1):
+            inside = [f"f{f}/m{i}-ü.bin" for i in range(1, len(sizes[f - 1]) + 1)]
+            other = f % len(sizes) + 1
+            # (selections ending with the folder's last member: the whole folder is decoded, the damage is met for certain)
+            for tg in ([inside, inside[-1:], inside + [f"f{other}/m1-ü.bin"]] if tier != "quick" else [inside, inside[-1:]]):
+                for mode, sink in (("thread", "factory"), ("thread", "path"), ("process", "path"), ("seq", "factory")):
+                    add(sizes=sizes, mode=mode, sink=sink, damaged=[f], targets=tg, seed=f, schedule=[])
         # selective extraction in parallel (folders with no selected member are skipped)
         add(sizes=sizes, mode="thread", schedule=[len(sizes)] * len(sizes[-1]), sink="factory", targets=[f"f{len(sizes)}/m{i}-ü.bin" for i in range(1, len(sizes[-1]) + 1)])
     # two independent objects on one path, interleaved
